@@ -83,6 +83,8 @@ def run(p, report, tier):
                 "base_sample_weight_}: on every path of every method either all members are stored or none", floor=8)
     report.rule("R19.3", "stores into base_* and restores from base_* go through .copy()/_copy_sw/deepcopy/clone "
                 "(base state never aliases current state)", floor=6)
+    report.rule("R19.5", "when the current training triple is restored from the base model, every member comes from "
+                "its own base_* counterpart (sibling agreement)", floor=3)
     report.rule("R19.4", "the three predict* siblings are structurally identical up to the delegated method name "
                 "(same NaN guard on the kernel block before the precomputed clone is used); the precomputed kernel "
                 "comes from the wrapped classifier's metric / metric_dict", floor=4)
@@ -146,6 +148,23 @@ def run(p, report, tier):
             report.add("R19.3", f.qual, f"`{norm_stmt(n, 80)}`", f"{f.file}:{n.lineno}", okc,
                        detail="copied" if okc else "base state and current state share one object: a later in-place "
                        "change of one leaks into the other")
+    # ---- R19.5 a restore from the base model takes every member from its own base counterpart
+    for mname, f in sorted(ci.methods.items()):
+        for blk_owner in ast.walk(f.node):
+            if not isinstance(blk_owner, ast.If):
+                continue
+            assigns = [n for n in blk_owner.body if isinstance(n, ast.Assign) and isinstance(n.targets[0], ast.Attribute)
+                       and isinstance(n.targets[0].value, ast.Name) and n.targets[0].value.id == "self"
+                       and n.targets[0].attr in GROUPS[0]]
+            from_base = [n for n in assigns if ("self.base_" + n.targets[0].attr) in ast.unparse(n.value)]
+            if not from_base:
+                continue
+            for n in assigns:
+                a = n.targets[0].attr
+                ok = ("self.base_" + a) in ast.unparse(n.value)
+                report.add("R19.5", f.qual, f"restore `{norm_stmt(n, 70)}`", f"{f.file}:{n.lineno}", ok,
+                           detail=f"from self.base_{a}" if ok else
+                           f"self.{a} is not restored from self.base_{a} although its siblings are restored from the base state")
     # ---- R19.4
     bodies = {m: norm_sibling(ci.methods[m].node) for m in ("predict", "predict_proba", "predict_freq")}
     same = bodies["predict"] == bodies["predict_proba"] == bodies["predict_freq"]
